@@ -89,6 +89,7 @@ type vpC19Event struct {
 	cbName  string
 	cbRetry bool
 	cbReset bool
+	cbSlow  bool
 }
 
 type vpC19TimeoutErr struct{}
@@ -413,7 +414,10 @@ func (c *vpC19Conn) SetReadDeadline(t time.Time) error {
 
 // ---- configuration of one case ----
 
-type vpC19CB struct{ reset, retry bool }
+type vpC19CB struct {
+	reset, retry bool
+	slow         bool // the callback takes 25 ms to decide (a back-off): longer than every short request timeout generated here
+}
 
 type vpC19Call struct {
 	method   string
@@ -466,20 +470,27 @@ func vpC19Run(cfg *vpC19Cfg, fail func(format string, a ...any)) []vpC19Outcome 
 	cbIdx := 0
 	nextCB := func(name string) vpC19CB {
 		nw.mu.Lock()
-		defer nw.mu.Unlock()
 		var d vpC19CB
 		if cbIdx < len(cfg.table) {
 			d = cfg.table[cbIdx]
 		}
 		cbIdx++
+		nw.mu.Unlock()
+		if d.slow {
+			time.Sleep(25 * time.Millisecond)
+		}
+		nw.mu.Lock()
+		defer nw.mu.Unlock()
 		if name == "RetryIf" {
 			d.reset = false
 		}
+		// has the request deadline passed by the time the callback answers?
+		cbPast := !nw.dUpper.IsZero() && time.Now().After(nw.dUpper)
 		if d.reset && d.retry {
 			// the request deadline restarts now: deadlines observed so far no longer bound it
 			nw.dUpper = time.Time{}
 		}
-		nw.events = append(nw.events, vpC19Event{what: "cb", cbName: name, cbRetry: d.retry, cbReset: d.reset})
+		nw.events = append(nw.events, vpC19Event{what: "cb", cbName: name, cbRetry: d.retry, cbReset: d.reset, past: cbPast, cbSlow: d.slow})
 		return d
 	}
 	hc := &HostClient{
@@ -558,7 +569,7 @@ func vpC19Run(cfg *vpC19Cfg, fail func(format string, a ...any)) []vpC19Outcome 
 			for _, e := range evs {
 				switch e.what {
 				case "cb":
-					fmt.Fprintf(&sb, " %s->(reset=%v,retry=%v)", e.cbName, e.cbReset, e.cbRetry)
+					fmt.Fprintf(&sb, " %s->(reset=%v,retry=%v,slow=%v,past=%v)", e.cbName, e.cbReset, e.cbRetry, e.cbSlow, e.past)
 				case "begin", "ret":
 					fmt.Fprintf(&sb, " %s#%d[%s past=%v]", e.what, e.conn, e.step, e.past)
 				default:
@@ -609,6 +620,14 @@ func vpC19Run(cfg *vpC19Cfg, fail func(format string, a ...any)) []vpC19Outcome 
 				cbSeen, cbAnyTrue = false, false
 			case "cb":
 				cbSeen = true
+				if e.past && !(e.cbReset && e.cbRetry) && call.timeout > 0 {
+					// the deadline passed while the callback was deciding, and it did not ask for a reset
+					pastDeadline = true
+					out.past = true
+					if stopped == "" {
+						stopped = "the request timeout had expired by the time the retry callback answered, and it did not ask to reset it"
+					}
+				}
 				if e.cbRetry {
 					cbAnyTrue = true
 					allowedByCB++
@@ -728,7 +747,7 @@ func TestVP_C19_RetryScripts(t *testing.T) {
 			n := rapid.IntRange(0, 8).Draw(t, "tableLen")
 			allTrue := rapid.IntRange(0, 2).Draw(t, "tableBias") == 0
 			for i := 0; i < n; i++ {
-				cb := vpC19CB{reset: rapid.Bool().Draw(t, "reset"), retry: rapid.IntRange(0, 3).Draw(t, "retry") != 0}
+				cb := vpC19CB{reset: rapid.Bool().Draw(t, "reset"), retry: rapid.IntRange(0, 3).Draw(t, "retry") != 0, slow: rapid.IntRange(0, 5).Draw(t, "slowcb") == 0}
 				if allTrue {
 					cb.retry = true
 				}
